@@ -146,7 +146,16 @@ pub fn replay_choices<H: Harness>(
     let r = catch_unwind(AssertUnwindSafe(|| H::new(cfg)));
     let mut h = match r {
         Ok(h) => h,
-        Err(e) => return Err(format!("harness construction panicked: {}", panic_msg(e))),
+        Err(e) => {
+            // the constructor drives the real code to the initial state: a panic there is
+            // a finding about the subject unless it comes from the harness itself
+            let site = panic_site();
+            if !last_panic_loc().starts_with('/') {
+                return Err(format!("harness construction panicked: {} at {}", panic_msg(e), last_panic_loc()));
+            }
+            viols.push(Viol::new(format!("panic/{}", site), format!("panic while reaching the initial state: {} at {}", panic_msg(e), last_panic_loc())));
+            return Ok(RunResult { h: None, viols, events, panicked: true });
+        }
     };
     for (i, &c) in choices.iter().enumerate() {
         let en = match catch_unwind(AssertUnwindSafe(|| h.enabled())) {
@@ -388,11 +397,18 @@ where
         viols: &mut Vec<Viol>,
         fps: &mut Vec<u128>,
     ) -> Result<(Exec, String), String> {
+        let mut ex = Exec { choices: vec![], costs: vec![], used: 0 };
         let mut h = match catch_unwind(AssertUnwindSafe(|| H::new(cfg))) {
             Ok(h) => h,
-            Err(e) => return Err(format!("harness construction panicked: {}", panic_msg(e))),
+            Err(e) => {
+                let site = panic_site();
+                if !last_panic_loc().starts_with('/') {
+                    return Err(format!("harness construction panicked: {} at {}", panic_msg(e), last_panic_loc()));
+                }
+                viols.push(Viol::new(format!("panic/{}", site), format!("panic while reaching the initial state: {} at {}", panic_msg(e), last_panic_loc())));
+                return Ok((ex, "panic".into()));
+            }
         };
-        let mut ex = Exec { choices: vec![], costs: vec![], used: 0 };
         let mut i = 0;
         let mut horizon_hit = false;
         loop {
@@ -494,7 +510,7 @@ where
             match run_one::<H>(cfg, &ex.choices, horizon, &mut v2, &mut fps2) {
                 Ok((ex2, outcome2)) => {
                     let tail = |f: &Vec<u128>| f.last().copied();
-                    if ex2.choices != ex.choices || outcome2 != outcome || tail(&fps2) != tail(&fps) || v2.len() != viols.len() {
+                    if ex2.choices != ex.choices || outcome2 != outcome || (outcome != "panic" && tail(&fps2) != tail(&fps)) || v2.len() != viols.len() {
                         shared.lock().unwrap().set_err(format!("NONDETERMINISM: replay of {:?} diverged", ex.choices));
                         capped.store(true, Ordering::Relaxed);
                         return;
